@@ -37,8 +37,12 @@ class Runs(Part):
         if not ctx.quick:
             plan += [(2, "0, 1, 2", "0, 1", 2, 4, "nsga2"), (1, "0, 1, 2, 3", "0", 3, 4, "nsga2"), (2, "0, 1", "0, 1", 3, 4, "nsga2"), (1, "0, 1, 2, 3", "0", 3, 6, "nsga2"),
                      (2, "0, 1", "0, 1", 3, 2, "epsmoea")]
-        return [tlc.run("Run", MC_CFG % p, ctx.scratch, workers=16, coverage=True, name="Run-mc-%d" % i, timeout=3400)
+        runs = [tlc.run("Run", MC_CFG % p, ctx.scratch, workers=16, coverage=True, name="Run-mc-%d" % i, timeout=3400)
                 for i, p in enumerate(plan)]
+        # the suite's modules fit together: C02's ranks + any truncation C03 allows => C09's step relation and elitism (constant-level)
+        runs.append(tlc.run("Compose", "CONSTANTS Vals = {0, 1, 2}\nMaxPool = %d\nINIT Init\nNEXT Next\n" % (3 if ctx.quick else 4), ctx.scratch,
+                            workers=1, name="Compose", timeout=3400))
+        return runs
 
     def cases(self, ctx):
         rng = ctx.rng
